@@ -3,19 +3,26 @@ From HG Require Import Base Rename RenameProofs Engine Exec Nested NestedProofs 
 From stdpp Require Import gmap.
 
 (* What running a nested graph as a node is (every depth, both runners): inputs translated to the
-   inner names, the inner graph run on them, exposed outputs translated back; errors surface
-   unchanged; a pause carries the path through the wrapper. *)
+   inner names, the inner graph run on them, exposed outputs translated back (the wrapper's
+   ordering-only outputs re-emitted as sentinels: with_signals); errors surface unchanged; a pause
+   carries the path through the wrapper. *)
 Theorem C05_nested_run : forall d r ft gt subs n st ins ig isel ieps ift igt isubs hin hout cur_out,
   n_kind n = KGraph ->
   dget subs (n_name n) = Some (NSub (NG ig isel ieps ift igt isubs) hin hout cur_out None) ->
   exec_ng (S d) r ft gt subs n st ins =
   match fst (execute (exec_ng d r ift igt isubs) r default_max_iterations ig (map_inputs_to_params hin ins)) with
-  | RDone s => OOk (gn_map_outputs hout cur_out (filter_outputs ig s isel)) None
+  | RDone s => OOk (with_signals (emit_only d (NG ig isel ieps ift igt isubs)) hout cur_out
+                                  (gn_map_outputs hout cur_out (filter_outputs ig s isel))) None
   | RFailed e _ => ORaise e
   | RPaused p _ => OPause (mk_pause (n_name n :: p_node p) (p_out p) (p_value p))
   end.
 Proof. exact exec_ng_graph. Qed.
 Print Assumptions C05_nested_run.
+
+(* without emit-only names inside, that is exactly the translated inner outputs *)
+Theorem C05_no_signals : forall hout cur_out outs, with_signals [] hout cur_out outs = outs.
+Proof. exact with_signals_none. Qed.
+Print Assumptions C05_no_signals.
 
 (* A nested graph receives exactly the values addressed to its inputs ... *)
 Theorem C05_boundary_inputs : forall orig hin cur (vs : list val),
